@@ -37,6 +37,17 @@ def decode_expect(a):
     return {"ok": [a["date"], typ, a["respin"] or 0]}
 
 
+def allowed_ids(a):
+    """the documented shape of a compose id, written from the property text / doc (not from the code):
+    short-version[-type] [-bpshort-bpversion[-bptype]] [-Client|-Server] -date[.suffix].respin"""
+    suffix = {"production": "", "nightly": ".n", "test": ".t", "ci": ".ci", "development": ".d"}.get(a["type"])
+    if suffix is None:
+        return None
+    tail = "-%s%s.%d" % (a["date"], suffix, a["respin"])
+    mids = ["-" + want_prefix({"release": a["base_product"]})] if a["is_layered"] else [""]
+    return [want_prefix(a) + m + v + tail for m in mids for v in ("", "-Client", "-Server")]
+
+
 def want_prefix(a):
     """short-version[-type unless ga], as the property states it"""
     r = a["release"]
@@ -265,6 +276,9 @@ class C15(Prop):
             cid = real_out["id"]["ok"]
             if not cid.startswith(want_prefix(a)):
                 return {"observed": {"id": cid}, "required": {"prefix": want_prefix(a)}, "kind": "prefix"}
+            ok_ids = allowed_ids(a)
+            if ok_ids is not None and cid not in ok_ids:
+                return {"observed": {"id": cid}, "required": {"one of": ok_ids}, "kind": "id-shape"}
             if real_out["validates"] is not True:
                 return {"observed": {"id": cid, "validates": real_out["validates"]}, "required": "passes Compose._validate_id", "kind": "id-not-valid"}
             want = {"ok": [a["date"], a["type"], a["respin"]]}
